@@ -96,6 +96,9 @@ def INDEX(arr, row_num=DEFAULT, column_num=DEFAULT, area_num=DEFAULT):
         # (a plain seq[position - 1] would wrap around to another element)
         if position < 1:
             raise IndexError
+        if not isinstance(seq, list):
+            # a cell is not a row: indexing into it would hand out a character of a text item
+            raise IndexError
         return seq[position - 1]
 
     try:
